@@ -109,7 +109,7 @@ RULE = ('one case per executed operation: (root table, history, operation, rando
         'x formulas lin, mix, b*x+c | also obs, frac, fixed parameter x {add_column, define_variable, values_from_database} and x '
         'conditions c==1, x>k | also or, c-1 for remove, x 4 earlier histories x 3|6 root tables; each followed by a second use '
         'of the same object (define_variable / values_from_database after add_column + scale_column; remove after remove + '
-        'scale_column).  Refusals (fifth search, depth 2|3 from A, B, D, E | also C and typed D.f, E.i, D.v; D / E = 5 rows '
+        'scale_column).  Refusals (fifth search, depth 2|3 from A, B, D, E | also C, and typed D.f, E.i, D.v to depth 2; D / E = 5 rows '
         'whose individuals are interleaved): remove x 3|5 conditions, add_column y1, scale x, build_panel_map, and the refused '
         'events panel(id) on non-consecutive individuals, panel(c), panel(x), add_column / define_variable under an existing '
         'name; in every state the reduced observer list plus 7 refused observing calls (split(1), split(0), split(2, other '
@@ -1438,7 +1438,7 @@ def run_observer(R: Replayed, op, tier, rec: Rec, ctx, only_answer=None):
     elif k == 'extract':
         full = list(range(n))
         if len(op) > 1 and op[1] == 'reduced':
-            plan = [('list', lst) for lst in ([0], [n - 1], [n // 2], [n - 1, 0], [n // 2, n // 2 + 1], full, full[::-1])]
+            plan = [('list', lst) for lst in ([0], [n - 1], [n // 2], [n - 1, 0], [n // 2, min(n // 2 + 1, n - 1)], full, full[::-1])]
         else:
             plan = [('list', lst) for lst in extract_lists(n, tier)]
         # the argument is declared Iterable[int]: other iterable forms of a few position lists
@@ -1889,7 +1889,7 @@ def bfs_roots(tier, seed):
         roots += [dict(table=t, tier=tier, depth=3) for t in dt_tables('quick')]
     # fifth search: the refusal alphabet (operations the library refuses are events that leave the state where it is),
     # from tables whose individuals are consecutive (A, B | C) and tables where they are not (D, E | typed)
-    roots += [dict(table=t, tier=tier, rf=True, depth=2 if tier == 'quick' else 3)
+    roots += [dict(table=t, tier=tier, rf=True, depth=2 if tier == 'quick' or '.' in t else 3)
               for t in (('A', 'B', 'D', 'E') if tier == 'quick' else ('A', 'B', 'C', 'D', 'E', 'D.f', 'E.i', 'D.v'))]
     return roots
 
